@@ -15,6 +15,7 @@ mvars == << vars, pc, hist >>
 
 Vals == CASE Mode \in {"wire", "foreign"} -> (IF KindsUnderTest = {"PAIRS"} THEN PairAll ELSE UNION { StarDom(k) : k \in KindsUnderTest })
           [] Mode = "limits" -> LimitDom
+          [] Mode = "loose" -> LooseDom
           [] Mode = "variants" -> VarDom \cup InflateDom
           [] OTHER -> UNION { Tiny(k) : k \in KindsUnderTest }
 
@@ -98,7 +99,7 @@ DgramNext ==
 
 \* compound: every member sequence through Validate (as automaton), Marshal and Unmarshal (C11)
 CompoundNext ==
-  \/ /\ pc = "build" /\ \E s \in CpSeqs(MaxCompound) : Build(1, [k |-> "CP", pkts |-> CpOf(s)])
+  \/ /\ pc = "build" /\ \E s \in CpSeqs(MaxCompound) \cup CpSeqsExtra(MaxCompound + 1) : Build(1, [k |-> "CP", pkts |-> CpOf(s)])
      /\ pc' = "marshal"
   \/ /\ pc = "marshal" /\ Marshal(1, RefMarshal(pk[1])) /\ pc' = "unmarshal"
      /\ Emit([script |-> "cp", pkts |-> pk[1].pkts])
@@ -128,7 +129,7 @@ HistNext ==
      /\ pc' = "calls"
      /\ Emit([script |-> "prog", v |-> hist[1].start, ops |-> SubSeq(hist', 2, Len(hist'))])
 
-McNext == CASE Mode = "hist" -> HistNext [] Mode = "compound" -> CompoundNext [] Mode = "wire" -> WireNext [] Mode = "faults" -> FaultNext [] Mode = "limits" -> LimitsNext
+McNext == CASE Mode = "hist" -> HistNext [] Mode = "loose" -> LimitsNext [] Mode = "compound" -> CompoundNext [] Mode = "wire" -> WireNext [] Mode = "faults" -> FaultNext [] Mode = "limits" -> LimitsNext
             [] Mode = "variants" -> VariantsNext [] Mode = "foreign" -> ForeignNext
             [] Mode = "dispatch" -> DispatchNext [] Mode = "dgram" -> DgramNext
 McStep == McNext /\ (Mode # "hist" => UNCHANGED hist)
